@@ -194,7 +194,10 @@ class C12(Check):
             'two window lookups, read-only accessors (cmminf, copy) in between, and class `sequence` runs 5-12 random '
             'operations (is_in_polygon, is_in_window, set_use_caps, use_caps assignment, copy, Cartesian/RA-Dec) on '
             '1-4 shared objects (one object possibly at two list positions), each answer held to the reference for '
-            'the then-current mask.  '
+            'the then-current mask; class `manycaps`: polygons / windows / .ply / FITS / balkans / set_use_caps with '
+            '31, 32, 33, 63, 64, 65, 100 caps, masks all-ones, top bits only, low bits only, random, bits above ncaps, and '
+            'ncaps restrictions 1, 31, 32, 33, 63, 64, 65, n-1, n, n+2; set_use_caps near-duplicates at 0..10 x tol in '
+            'axis / diagonal / random directions for tol default, 1e-10, 1e-8, 1e-7, 1e-5 (float and numpy scalar).  '
             'Non-trivial: a membership case whose reference evaluated >= 2 used caps incl. a negative one in some '
             'polygon and decided >= 1 point closer than 1e-3 (in 1-x.p) to a cap boundary; a set_use_caps case whose '
             'index list is not a permutation of range(ncaps) or that removes/keeps a same-centre cap.  Distinct by '
@@ -209,9 +212,15 @@ class C12(Check):
         '|x|^2-1 <= 4.4e-16 for normalised doubles -> margin 2000',
         'domain: |cm| <= 2, ncaps <= 12, use-mask < 2^32, index lists within range(ncaps); .ply files carry no use-mask '
         '(all caps used) and no polygon with 0 caps (quantifier says 1..n caps; read_mangle_polygons asserts on 0 caps)',
-        'set_use_caps: cap pairs are generated either >= 100x inside or >= 100x outside tol, cases with a pair within a '
-        'factor 4 of tol are counted undecided; duplicate relations generated are equivalence relations so that '
-        '"earlier selected cap" needs no tie-break',
+        'set_use_caps: the duplicate rule is EUCLIDEAN centre distance < tol and |cm difference (or sum)| < tol, evaluated in '
+        'long double on the stored values; near-duplicates are generated at 0, 0.1, 0.5, 0.9, 1.1, 1.2, 1.5, 1.8, 2, 10 x tol '
+        'along axes, face and space diagonals and random directions (cm offsets 0.5, 0.9, 1.1, 2 x tol); pydl evaluates the '
+        'same quantities to ~5e-16 relative, a case is undecided only if a quantity is within 1e-9 (relative) of tol (margin '
+        '1e6), or if the tolerance relation is not transitive on the requested caps so that "later duplicates of a selected '
+        'cap" has two readings that differ (both readings are computed)',
+        'cap counts 31, 32, 33, 63, 64, 65, 100 with Python-int use-masks of any size are in the domain for ManglePolygon and '
+        '.ply; FITS USE_CAPS is a 32-bit column (<= 32 caps); window_read keeps USE_CAPS in an int32, so 32 caps raise '
+        'OverflowError on the unchanged tree - balkans are exercised up to 31 caps (reported, not asserted)',
         'formats are compared through the reference on decided points, not bit-for-bit inside the band',
     ]
     REQUIRED_COUNTERS = ('radec_integer_dtype_cases', 'centre_asserted', 'centre_tiny_cm_asserted', 'antipode_asserted', 'near_boundary_decided',
@@ -222,7 +231,11 @@ class C12(Check):
                          'usecaps_unrelated_same_centre_kept', 'usecaps_add', 'usecaps_allow_doubles',
                          'usecaps_near_centre_kept',
                          'same_object_requeries', 'requery_reference_answer_changed', 'requery_after_mask_change',
-                         'requery_window_after_polygon_on_member', 'requery_file_objects')
+                         'requery_window_after_polygon_on_member', 'requery_file_objects',
+                         'usecaps_neardup_inside_tol_removed', 'usecaps_neardup_1_to_sqrt3_tol_kept',
+                         'usecaps_neardup_each_component_inside_tol_kept', 'usecaps_cm_difference_near_tol',
+                         'manycaps_mask_ge_2_63', 'manycaps_mask_bit31_or_more', 'manycaps_64_or_more_caps',
+                         'manycaps_window', 'manycaps_file_arms', 'manycaps_usecaps')
     REQUIRED_REACH = {'mangle.is_in_polygon': 0.9, 'mangle.is_in_window': 0.9, 'mangle.set_use_caps': 0.9,
                       'mangle.cap_distance': 0.7, 'mangle.read_mangle_polygons': 0.8}
     MIN_NONTRIVIAL = 20
@@ -264,6 +277,7 @@ class C12(Check):
             'repo_fixtures': 16 if q else 160,
             'use_caps': 3000 if q else 80000,
             'sequence': 400 if q else 10000,
+            'manycaps': 120 if q else 3000,
         }
 
     # ------------------------------------------------------------------ gen
@@ -290,6 +304,8 @@ class C12(Check):
             return self._gen_use_caps(g)
         if cls == 'sequence':
             return self._gen_sequence(g)
+        if cls == 'manycaps':
+            return self._gen_manycaps(g, i)
         raise KeyError(cls)
 
     def _gen_polygon_case(self, g, big):
@@ -408,14 +424,36 @@ class C12(Check):
             }
         return case
 
-    def _gen_use_caps(self, g):
-        n = int(g.integers(1, 10))
-        tol_arg = [None, None, 1e-10, 1e-7, 1e-5][int(g.integers(5))]
+    def _gen_use_caps(self, g, n=None):
+        n = int(g.integers(1, 10)) if n is None else n
+        tol_arg = [None, None, 1e-10, 1e-8, 1e-7, 1e-5][int(g.integers(6))]
         tol = 1e-10 if tol_arg is None else tol_arg
         xs, cms, note = [], [], []
         for k in range(n):
             r = g.uniform()
-            if k > 0 and r < 0.55:
+            if k > 0 and r < 0.2:
+                # near-duplicate at a chosen multiple of tol from an earlier cap, in axis / diagonal / random directions:
+                # the duplicate rule is EUCLIDEAN distance < tol (not per component), decided at 0.9 / 1.1 / 1.2 ... tol
+                fresh = [q for q in range(k) if note[q] == 'fresh']
+                j = int(fresh[int(g.integers(len(fresh)))]) if fresh and g.uniform() < 0.8 else int(g.integers(k))
+                m = float(g.choice([0.0, 0.1, 0.5, 0.9, 1.1, 1.2, 1.5, 1.8, 2.0, 10.0]))
+                dk = str(g.choice(['random', 'diag', 'diag', 'facediag', 'axis']))
+                if dk == 'random':
+                    v = g.normal(size=3)
+                elif dk == 'diag':
+                    v = g.choice([-1.0, 1.0], size=3)
+                elif dk == 'facediag':
+                    v = g.choice([-1.0, 1.0], size=3)
+                    v[int(g.integers(3))] = 0.0
+                else:
+                    v = np.zeros(3)
+                    v[int(g.integers(3))] = float(g.choice([-1.0, 1.0]))
+                x = np.array(xs[j]) + v / np.linalg.norm(v) * (m * tol)
+                rel = g.uniform()
+                off = float(g.choice([0.5, 0.9, 1.1, 2.0])) * tol * float(g.choice([-1, 1])) if g.uniform() < 0.25 else 0.0
+                cm = (cms[j] if rel < 0.7 else -cms[j]) + off
+                note.append('neardup %s %gtol%s' % (dk, m, '' if off == 0.0 else ' cm%+gtol' % (off / tol)))
+            elif k > 0 and r < 0.6:
                 j = int(g.integers(k))
                 x = np.array(xs[j])
                 pert = g.uniform()
@@ -439,7 +477,7 @@ class C12(Check):
                 else:
                     cm = float(g.uniform(0.05, 1.9)) * float(g.choice([-1, 1]))
                     note.append('unrelated')
-            elif k > 0 and r < 0.7:
+            elif k > 0 and r < 0.72:
                 # distinct but nearby centre (100 tol .. 1e-3), same cm
                 j = int(g.integers(k))
                 v = g.normal(size=3)
@@ -470,9 +508,90 @@ class C12(Check):
         add = bool(g.uniform() < 0.3)
         return {'kind': 'use_caps', 'x': xs, 'cm': cms, 'note': note, 'index_list': idx,
                 'as': str(g.choice(['list', 'list', 'tuple', 'ndarray', 'ndarray32'])),
-                'old': int(g.integers(0, 1 << n)), 'add': add, 'tol': tol_arg,
+                'old': int(g.integers(0, 1 << min(n, 62))) if n <= 62 or g.uniform() < 0.5 else
+                       int(g.integers(0, 1 << 62)) | (int(g.integers(1, 1 << (n - 62))) << 62),
+                'add': add, 'tol': tol_arg, 'tol_np': bool(g.uniform() < 0.3),
                 'allow_doubles': bool(g.uniform() < 0.2), 'allow_neg_doubles': bool(g.uniform() < 0.3),
                 'pts': [[float(c) for c in p] for p in unit(g, 12)]}
+
+    # cap counts at and beyond the machine word sizes (use-mask bit 31 / 32 / 63 / 64 and above)
+    MANY = [31, 32, 33, 63, 64, 65, 100]
+
+    def _many_polygon(self, g, nc, ncp, t, f32, maxbits=None):
+        full = (1 << nc) - 1
+        mode = str(g.choice(['all', 'all', 'top', 'top', 'low', 'random', 'above']))
+        if mode == 'all':
+            use = full
+        elif mode == 'top':                      # the highest bit(s) and a few low ones
+            use = (1 << (nc - 1)) | (int(g.integers(0, 2)) << (nc - 2)) | int(g.integers(0, 1 << 6))
+        elif mode == 'low':                      # only low bits: stays below 2**31 whatever the cap count
+            use = int(g.integers(1, 1 << 20))
+        elif mode == 'random':
+            use = int.from_bytes(g.bytes(16), 'little') & full
+        else:                                    # all caps plus a bit above ncaps
+            use = full | (1 << (nc + int(g.integers(0, 5))))
+        if maxbits is not None:
+            use &= (1 << maxbits) - 1
+        xs, cms = [], []
+        for k in range(nc):
+            x = rotate_from(g, t, float(10 ** g.uniform(-2, 0.3))) if g.uniform() < 0.6 else unit(g)
+            active = (use >> k) & 1 and (ncp <= 0 or k < ncp)
+            cm = gen_cm(g, float(1.0 - np.dot(x, t)), contain=bool(active and g.uniform() < 0.97), specials=0.05)
+            if f32:
+                x = x.astype(np.float32).astype(np.float64)
+                cm = float(np.float32(cm))
+            xs.append([float(c) for c in x])
+            cms.append(cm)
+        return xs, cms, use
+
+    def _gen_manycaps(self, g, i):
+        sub = i % 8
+        if sub == 7:
+            return self._gen_use_caps(g, n=int(g.choice([31, 32, 33, 63, 64, 65])))
+        f32 = bool(g.uniform() < 0.15)
+        coords = 'radec' if g.uniform() < 0.3 else 'xyz'
+        t = unit(g)
+        if sub < 4:
+            nc = int(g.choice(self.MANY))
+            sizes = [0, 0, 1, 31, 32, 33, 63, 64, 65, nc - 1, nc, nc + 2]
+            ncp = int(g.choice(sizes))
+            xs, cms, use = self._many_polygon(g, nc, ncp, t, f32)
+            pts, exact = gen_points(g, [(xs, cms, use)], [t], 12, f32)
+            pts, exact = finish_points(g, pts, exact, coords)
+            rq = [v for v in sizes if v != ncp]
+            g.shuffle(rq)
+            return {'kind': 'polygon', 'f32': f32, 'x': xs, 'cm': cms, 'use': use, 'ncaps': ncp, 'coords': coords,
+                    'pts': pts, 'exact': [[j, k] for j, _, k in exact], 'requery': [int(v) for v in rq[:3]]}
+        files = sub >= 5
+        maxc = int(g.choice([31, 32, 33, 64, 65])) if files else int(g.choice(self.MANY[:6]))
+        npoly = int(g.integers(1, 4))
+        sizes = [0, 0, 1, 31, 32, 63, 64, maxc - 1, maxc, maxc + 2]
+        ncp = int(g.choice(sizes))
+        polys, targets = [], []
+        for p in range(npoly):
+            tt = t if p == 0 else rotate_from(g, t, float(10 ** g.uniform(-3, -0.5)))
+            nc = maxc if p == 0 else int(g.integers(max(1, maxc - 2), maxc + 1))
+            polys.append(self._many_polygon(g, nc, ncp, tt, f32, maxbits=32 if files and maxc <= 32 else None))
+            targets.append(tt)
+        order = list(range(npoly))
+        g.shuffle(polys)
+        pts, exact = gen_points(g, polys, targets, 10, f32)
+        pts, exact = finish_points(g, pts, exact, coords)
+        rq = [v for v in sizes if v != ncp]
+        g.shuffle(rq)
+        case = {'kind': 'window', 'f32': f32, 'polys': [{'x': x, 'cm': c, 'use': u} for x, c, u in polys],
+                'ncaps': ncp, 'coords': coords, 'pts': pts, 'exact': exact, 'requery': [int(v) for v in rq[:2]]}
+        if files:
+            g.shuffle(order)
+            case['kind'] = 'files'
+            case['maxc'] = maxc
+            # USE_CAPS is a 32-bit column (FITS <= 32 caps); window_read keeps USE_CAPS in an int32 (<= 31 caps); .ply any
+            case['arms'] = ['ply'] + (['fits'] if maxc <= 32 else []) + (['balkans'] if maxc <= 31 else [])
+            case['fmt'] = {'seed': int(g.integers(1 << 32)), 'ifield': bool(g.uniform() < 0.6), 'plain3d': False,
+                           'ply_header': int(g.integers(0, 4)), 'ply_pixel': bool(g.uniform() < 0.5),
+                           'ply_num': str(g.choice(['%.17g', 'repr'])), 'bcaps_order': [int(o) for o in order],
+                           'bcaps_gaps': [int(v) for v in g.integers(0, 3, size=npoly + 1)], 'pad': int(g.integers(0, 2))}
+        return case
 
     def _gen_sequence(self, g):
         """A history of queries and use-mask changes on the SAME polygon objects / the same PolygonList."""
@@ -671,6 +790,13 @@ class C12(Check):
             out.count('radec_cases')
         if f32:
             out.count('f32_cases')
+        if n >= 31:
+            if n >= 64:
+                out.count('manycaps_64_or_more_caps')
+            if use >= 1 << 63:
+                out.count('manycaps_mask_ge_2_63')
+            if use >= 1 << 31:
+                out.count('manycaps_mask_bit31_or_more')
         construct = case.get('construct', 'kwargs')
         if construct == 'noargs':
             poly = M.ManglePolygon()
@@ -758,6 +884,14 @@ class C12(Check):
             out.count('f32_cases')
         ref = RefCache(polys, pts_ld, band, ctol, exact)
         masks = [u for _, _, u in polys]
+        if max(ref.ncs) >= 31:
+            out.count('manycaps_window')
+            if max(ref.ncs) >= 64:
+                out.count('manycaps_64_or_more_caps')
+            if max(masks) >= 1 << 63:
+                out.count('manycaps_mask_ge_2_63')
+            if max(masks) >= 1 << 31:
+                out.count('manycaps_mask_bit31_or_more')
         sts, nears, first, alt = ref.window(masks, ncp)
         values = case.get('requery')
         if values is None:
@@ -812,9 +946,15 @@ class C12(Check):
         d = os.path.join(self.workdir, 'c12_%d_%d' % (os.getpid(), self._n))
         os.makedirs(d)
         try:
-            self._arm_fits(case, out, d, polys, pts, ncp, first, alt, rq)
-            self._arm_ply(case, out, d, polys, pts, ncp, first_a, alt_a, rq)
-            self._arm_balkans(case, out, d, polys, pts, ncp, first_a, alt_a, rq)
+            arms = case.get('arms', ['fits', 'ply', 'balkans'])
+            if 'fits' in arms:
+                self._arm_fits(case, out, d, polys, pts, ncp, first, alt, rq)
+            if 'ply' in arms:
+                self._arm_ply(case, out, d, polys, pts, ncp, first_a, alt_a, rq)
+            if 'balkans' in arms:
+                self._arm_balkans(case, out, d, polys, pts, ncp, first_a, alt_a, rq)
+            if max(ref.ncs) >= 31:
+                out.count('manycaps_file_arms', len(arms))
         finally:
             shutil.rmtree(d, ignore_errors=True)
 
@@ -1173,6 +1313,8 @@ class C12(Check):
         tol = 1e-10
         if case['tol'] is not None:
             kw['tol'] = tol = case['tol']
+            if case.get('tol_np'):
+                kw['tol'] = np.float64(tol)
         if case['add']:
             kw['add'] = True
         if case['allow_doubles']:
@@ -1185,7 +1327,10 @@ class C12(Check):
         poly = M.ManglePolygon(x=x.copy(), cm=cm.copy(), use_caps=old)
         if amb:
             out.undecide(1)
+            out.count('usecaps_undecided_nontransitive' if 'transitive' in amb else 'usecaps_undecided_band')
             return
+        if n >= 31:
+            out.count('manycaps_usecaps')
         ok, ret = self._call(out, 'set_use_caps', M.set_use_caps, poly, arg, **kw)
         if not ok:
             return
@@ -1234,6 +1379,20 @@ class C12(Check):
                 elif dist < 1e-2 and (exp >> j) & 1 and (exp >> i) & 1 and (abs(cm[i] - cm[j]) < tol or abs(cm[i] + cm[j]) < tol):
                     out.count('usecaps_near_centre_kept')
                     interesting = True
+                # evidence for the sharpness of the tolerance rule
+                related = abs(cm[i] - cm[j]) < tol or (abs(cm[i] + cm[j]) < tol and not case['allow_neg_doubles'])
+                if not case['allow_doubles'] and related:
+                    ratio = dist / tol
+                    if 0.05 < ratio < 1.0 and (removed >> j) & 1 and (exp >> i) & 1:
+                        out.count('usecaps_neardup_inside_tol_removed')
+                    if 1.0 < ratio < 1.7320 and (exp >> j) & 1 and (exp >> i) & 1:
+                        out.count('usecaps_neardup_1_to_sqrt3_tol_kept')
+                        if float(np.abs(x[i] - x[j]).max()) < tol:
+                            out.count('usecaps_neardup_each_component_inside_tol_kept')
+                if not case['allow_doubles'] and dist < tol:
+                    for dc in (abs(cm[i] - cm[j]), abs(cm[i] + cm[j])):
+                        if 0.4 * tol < dc < 2.5 * tol:
+                            out.count('usecaps_cm_difference_near_tol')
         out.nontrivial = nonperm or interesting
         # membership honours the mask just set
         if reti == exp:
